@@ -11,7 +11,8 @@ impl PreSetParserError {
 //@@ rewrite pub_struct pub_fields
 //@@ enditem
 pub open spec fn is_preset_of(r: Box<dyn Process>, next: Box<dyn Process>, none: bool, v: Map<String, JsonValue>, m: Map<String, Rc<dyn Get>>) -> bool {
-    forall|rows: Seq<Context>| #[trigger] r.fut(rows) == next.fut(presets(none, v, m, rows))
+    &&& forall|rows: Seq<Context>| #[trigger] r.fut(rows) == next.fut(presets(none, v, m, rows))
+    &&& forall|t: Seq<String>, rows: Seq<Context>| #[trigger] r.sfut(t, rows) == next.sfut(t, presets(none, v, m, rows))
 }
 pub open spec fn presets(none: bool, v: Map<String, JsonValue>, m: Map<String, Rc<dyn Get>>, rows: Seq<Context>) -> Seq<Context> {
     if none { rows } else { preset_rows(v, m, rows) }
